@@ -22,7 +22,8 @@ Definition rep := (Q * Z)%type.                 (* worker time stamp, payload *)
 Definition rts (r : rep) : Q := fst r.
 
 Inductive pstat := Running | ExitOk | ExitFail | Killed.
-Inductive mk := NoMark | PauseMark | StopMark.
+(* the pause and the stop marker are two files: both can be present *)
+Inductive mk := NoMark | PauseMark | StopMark | BothMark.
 Inductive status := InProgress | Completed | Failed | Paused | Stopped.
 Inductive dec := CONT | PAUSE | STOP.
 Inductive bkind := Generic | Sim.
@@ -54,7 +55,7 @@ Record tr := mkTr {
 
 Definition status_of (t : tr) : status :=
   match mark t with
-  | StopMark => Stopped
+  | StopMark | BothMark => Stopped
   | PauseMark => Paused
   | NoMark => match proc t with
               | ExitOk => Completed
@@ -110,15 +111,16 @@ Definition t_deliver (r : rep) (t : tr) : tr :=
 
 (* TrialBackend.pause_trial: status := paused; _pause_trial (marker, kill) *)
 Definition t_pause (bk : bkind) (late : nat) (t : tr) : tr :=
-  t_kill bk late (set_mark PauseMark (set_cstat Paused t)).
+  t_kill bk late (set_mark (match mark t with StopMark | BothMark => BothMark | _ => PauseMark end)
+                           (set_cstat Paused t)).
 (* TrialBackend.stop_trial: _stop_trial (marker, kill); the cached status is not touched *)
 Definition t_stop (bk : bkind) (late : nat) (t : tr) : tr :=
-  t_kill bk late (set_mark StopMark t).
+  t_kill bk late (set_mark (match mark t with PauseMark | BothMark => BothMark | _ => StopMark end) t).
 (* TrialBackend.resume_trial after its assertions: _resume_trial (marker removed), _schedule
    (new worker), status := in_progress; ghost: the run that ends is filed under [past] *)
 Definition t_resume (reps : list rep) (t : tr) : tr :=
   mkTr (log t) reps Running
-       (match mark t with PauseMark => NoMark | m => m end)
+       (match mark t with PauseMark => NoMark | BothMark => StopMark | m => m end)
        (seen t) InProgress (nrf t) reps [] (length (log t)) Live
        (past t ++ [(cur t, dcur t, fin t)]).
 
